@@ -187,7 +187,7 @@ func sizeDimsFor(tier string) sizeDims {
 			strings:  sweepSizes(300, 500, 512, 1000, 1024, 2048, 4096, 8192, 10000, 65536, 100000, 1<<20),
 			widths:   sweepSizes(140, 200, 256, 500, 512, 1000, 1024, 4096),
 			arrays:   sweepSizes(140, 200, 256, 500, 512, 1000, 1024, 4096),
-			depths:   append(sweepSizes(140, 256, 512, 1000, 2048, 5000), 9990),
+			depths:   sweepSizes(140, 256, 512, 1000, 2048),
 			products: []int{16, 32, 64, 128, 256, 1024, 4096},
 		}
 	}
